@@ -26,6 +26,36 @@ var entryNames = [...]string{"RunString", "RunProgram", "Callable", "TriggerReac
 
 var typePromise = reflect.TypeOf((*goja.Promise)(nil))
 
+var preludePrgs [4]*goja.Program
+
+func init() {
+	for i := range preludePrgs {
+		src := promref.PreludeVars
+		if i&1 != 0 {
+			src += promref.PreludeClasses
+		}
+		if i&2 != 0 {
+			src += promref.PreludeThenables
+		}
+		preludePrgs[i] = goja.MustCompile("prelude.js", src, false)
+	}
+}
+
+// progCache holds the compiled form of the sources of one case (a goja.Program is immutable and reusable across runtimes).
+type progCache map[string]*goja.Program
+
+func (pc progCache) get(name, src string) (*goja.Program, error) {
+	if p, ok := pc[src]; ok {
+		return p, nil
+	}
+	p, err := goja.Compile(name, src, false)
+	if err != nil {
+		return nil, err
+	}
+	pc[src] = p
+	return p, nil
+}
+
 // host is one goja runtime with the natives of the op language and the observation buffers.
 type host struct {
 	r        *goja.Runtime
@@ -172,7 +202,16 @@ func newHost(p *promref.Program, probeAt int) (*host, string) {
 		}
 		h.tracker = append(h.tracker, fmt.Sprintf("%s P@%d;", name, h.promIndex(pr)))
 	})
-	o := gj.Call(func() (goja.Value, error) { return r.RunString(promref.Prelude) })
+	which := 0
+	if cl, th := p.Uses(); cl || th {
+		if cl {
+			which |= 1
+		}
+		if th {
+			which |= 2
+		}
+	}
+	o := gj.Call(func() (goja.Value, error) { return r.RunProgram(preludePrgs[which]) })
 	if o.Err != nil || o.Panic != nil || o.Fuel || o.Assertion != nil {
 		return nil, fmt.Sprintf("prelude failed: %+v", o)
 	}
